@@ -43,6 +43,28 @@ def akai_pair():
         {"name": "TAIL", "n": 500, "chain": [14], "seq": 3}]}]}]}
 
 
+def akai_twins():
+    """two volumes whose names are equal once they are made file-system safe, holding samples of the same names; the table and
+    the data of the volume that comes FIRST in the partition header lie BEHIND those of the second (a cut between them leaves
+    the first volume without its table): which volume a reported path belongs to must not depend on where the image ends"""
+    return {"parts": [{"size": 14, "vols": [
+        {"name": "DRUMS+1", "dir": [8], "files": [{"name": "KICK", "n": 3000, "chain": [9], "seq": 1}, {"name": "SNARE", "n": 5000, "chain": [11, 10], "seq": 2}]},
+        {"name": "DRUMS 1", "dir": [3], "files": [{"name": "KICK", "n": 3500, "chain": [4], "seq": 3}, {"name": "SNARE", "n": 6000, "chain": [6, 5], "seq": 4}]}]}]}
+
+
+def rekey_by_complete_export(img, samples):
+    """paths of the complete image's own export -> the sample whose audio the file holds (names that collide are numbered by the
+    tool; the numbering of the COMPLETE image is the reference a cut image is compared with)"""
+    res = tree.full_run(img, cpu_s=40.0, ls_paths=())
+    out = {}
+    for p in res.get("reported", []):
+        w = riff.validate(res["files"].get(p, b""))
+        hit = [k for k, v in samples.items() if not w.errors and v["pcm"] == w.data]
+        if len(hit) == 1:
+            out[p[:-4]] = samples[hit[0]]
+    return out if len(out) == len(samples) else samples
+
+
 def akai_subject(spec):
     model = A.model_from_spec(spec)
     img, layout = A.build_akai(model)
@@ -134,6 +156,9 @@ def subject(key):
             _SUBJ[key] = akai_subject(akai_small())
         elif key == "akai_pair":
             _SUBJ[key] = akai_subject(akai_pair())
+        elif key == "akai_twins":
+            img, samples, bounds = akai_subject(akai_twins())
+            _SUBJ[key] = (img, rekey_by_complete_export(img, samples), bounds)
         elif key == "akai_small_mdx":
             # the small image inside an MDX wrapper (64-byte header, payload, 300 bytes of descriptor behind it)
             from mcv.gen import containers as C
@@ -219,7 +244,7 @@ class Check(CheckBase):
     title = "On a truncated image every reported file is a well-formed prefix"
     rule = ("images: AKAI (2 partitions, directory before and -- by explicit layout -- after the data, files of 1, 2 "
             "(fragmented) and 3 sectors, L/R pair, a file filling its last sector), a small 64 KiB AKAI image, Roland (3 "
-            "samples, permuted chain, reverse mode), CDDA (3 tracks, real files), the small AKAI image inside an MDX wrapper, the big AKAI image delivered in 2352-byte raw sectors (cuts in the raw file: every 1009th byte, the raw sectors holding the second partition header densely). Cut points: every structure boundary named "
+            "samples, permuted chain, reverse mode), CDDA (3 tracks, real files), an AKAI image with two volumes of colliding export names and equal sample names whose first volume is stored behind the second (paths judged against the complete image's own numbering), the small AKAI image inside an MDX wrapper, the big AKAI image delivered in 2352-byte raw sectors (cuts in the raw file: every 1009th byte, the raw sectors holding the second partition header densely). Cut points: every structure boundary named "
             "by the writer's layout map (partition header fields, used SAT words, directory entries, sample header fields, "
             "sector/cluster boundaries) -1/0/+1, plus every 509th byte (quick); thorough: EVERY byte of the small AKAI image "
             "and of the CDDA bin, every 16th byte of the big AKAI image, every 4096th of the Roland image + boundaries. Oracle: "
@@ -231,16 +256,16 @@ class Check(CheckBase):
 
     def shards(self):
         cases = []
-        for key in ("akai_small", "akai_big", "akai_pair", "roland", "cdda", "akai_big2352", "akai_small_mdx"):
+        for key in ("akai_small", "akai_big", "akai_pair", "akai_twins", "roland", "cdda", "akai_big2352", "akai_small_mdx"):
             img, samples, bounds = subject(key)
             cuts = set()
             for b in bounds:
                 for d in (-1, 0, 1):
                     if 0 <= b + d <= len(img):
                         cuts.add(b + d)
-            stride = {"akai_small": 509, "akai_big": 509, "akai_pair": 509, "roland": 65521, "cdda": 509, "akai_big2352": 1009, "akai_small_mdx": 509}[key]
+            stride = {"akai_small": 509, "akai_big": 509, "akai_pair": 509, "akai_twins": 257, "roland": 65521, "cdda": 509, "akai_big2352": 1009, "akai_small_mdx": 509}[key]
             if not self.quick:
-                stride = {"akai_small": 1, "akai_big": 16, "akai_pair": 16, "roland": 4096, "cdda": 1, "akai_big2352": 64, "akai_small_mdx": 7}[key]
+                stride = {"akai_small": 1, "akai_big": 16, "akai_pair": 16, "akai_twins": 8, "roland": 4096, "cdda": 1, "akai_big2352": 64, "akai_small_mdx": 7}[key]
             lo = R.DATA_FAT_OFF - 70000 if key == "roland" and self.quick else 0
             cuts.update(range(lo, len(img) + 1, stride))
             if key == "roland":
